@@ -7,7 +7,8 @@ import absval as A
 import blockrun as B
 import common
 
-RULE = ("encodings from three sources (library-written blocks of all nine types, the same with random junk, the 8 blocks of the "
+RULE = ("(2 % of the blocks, 8 % in the thorough tier, sit on the scale axis: 255 ... 65537 frames or 15 ... 257 items) " 
+        "encodings from three sources (library-written blocks of all nine types, the same with random junk, the 8 blocks of the "
         "BTS capture) plus file headers and table entries; the Lean model supplies the care mask; every don't-care byte is "
         "overwritten with values biased towards the five bytes cp1252 cannot decode and towards non-zero first bytes; "
         "non-trivial = encoding with >= 1 don't-care byte; distinct by (kind, value, junk seed)")
